@@ -164,24 +164,37 @@ def replay_evaluators(diffs):
 LUV_PROGRAM = """
 :- dynamic(q/1).
 :- dynamic(r/2).
+:- dynamic(aux/1).
 show(X) :- write(X), nl.
+aux(9).
 % a call sees exactly the clauses that existed when it started
 t1 :- retractall(q(_)), assertz(q(1)), assertz(q(2)), assertz(q(3)),
       findall(X, (q(X), ( X =:= 1 -> assertz(q(4)), retract(q(3)) ; true )), L), show(L).
 t2 :- retractall(q(_)), assertz(q(1)), assertz(q(2)),
-      findall(X, (q(X), retract(q(2))), L1), findall(Y, q(Y), L2), show(L1-L2).
+      findall(X, (q(X), ( X =:= 1 -> retract(q(2)) ; true )), L1), findall(Y, q(Y), L2), show(L1-L2).
 t3 :- retractall(q(_)), assertz(q(1)), findall(X, (q(X), X < 4, Y is X + 1, assertz(q(Y))), L1),
       findall(Z, q(Z), L2), show(L1-L2).
-t4 :- retractall(r(_,_)), assertz(r(a,1)), assertz(r(b,2)), assertz(r(a,3)),
-      findall(V, (r(a,V), retract(r(a,3)), assertz(r(a,9))), L1), findall(K-W, r(K,W), L2),
+% bound first argument (indexed choice), retract is the first update after the call started
+t4 :- retractall(r(_,_)), assertz(r(a,1)), assertz(r(b,2)), assertz(r(a,3)), assertz(r(a,4)),
+      findall(V, (r(a,V), ( V =:= 1 -> retract(r(a,3)) ; true )), L1), findall(K-W, r(K,W), L2),
       show(L1-L2).
 t5 :- retractall(q(_)), assertz(q(1)), retract(q(1)), assertz(q(2)), findall(X, q(X), L), show(L).
+% a nested call to a dynamic predicate between the update and the resumption of the outer call
+t6 :- retractall(q(_)), assertz(q(1)), assertz(q(2)), assertz(q(3)),
+      findall(X, (q(X), ( X =:= 1 -> retract(q(2)), ( q(_) -> true ; true ) ; true )), L), show(L).
+t7 :- retractall(q(_)), assertz(q(1)), assertz(q(2)), assertz(q(3)),
+      findall(X, (q(X), ( X =:= 1 -> retract(q(2)), ( aux(_) -> true ; true ) ; true )), L), show(L).
+t8 :- retractall(r(_,_)), assertz(r(a,1)), assertz(r(b,7)), assertz(r(a,2)), assertz(r(a,3)),
+      findall(X, (r(a,X), ( X =:= 1 -> retract(r(a,2)), ( aux(_) -> true ; true ) ; true )), L), show(L).
+t9 :- retractall(q(_)), assertz(q(1)), assertz(q(2)),
+      findall(X, (q(X), ( X =:= 1 -> assertz(q(3)), ( q(_) -> true ; true ) ; true )), L), show(L).
 """
 
 
 def replay_logical_update_view(viol):
     cases = [("t1", "[1,2,3]"), ("t2", "[1,2]-[1]"), ("t3", "[1]-[1,2]"),
-             ("t4", "[1,3]-[a-1,b-2,a-9,a-9]"), ("t5", "[2]")]
+             ("t4", "[1,3,4]-[a-1,b-2,a-4]"), ("t5", "[2]"), ("t6", "[1,2,3]"), ("t7", "[1,2,3]"),
+             ("t8", "[1,2,3]"), ("t9", "[1,2]")]
     return run_cases(LUV_PROGRAM, cases, {"model": viol}, "C09", "logical_update_view")
 
 
